@@ -379,7 +379,7 @@ fn nth_seq(depth: usize, mut idx: u64) -> Vec<Op> {
 fn main() {
     let mut run = Run::from_args("C08", "crash", "fault_enumeration");
     // per-crash-state effort by sequence length: (full up to, standard up to); light beyond
-    let (full_upto, standard_upto) = run.tier.pick((2usize, 3usize), (4usize, 4usize));
+    let (full_upto, standard_upto) = run.tier.pick((2usize, 2usize), (4usize, 4usize));
     let effort_for = |depth: usize| {
         if depth <= full_upto {
             Effort::Full
